@@ -378,16 +378,29 @@ func Raftkvs(seed int64, o RaftOpts) *RaftSim {
 			}
 		}
 	}
+	type cached struct {
+		raw []byte
+		val tla.Value
+	}
+	cache := map[string]map[int]*cached{}
 	readMgrs := func(v string) tla.Value {
+		if cache[v] == nil {
+			cache[v] = map[int]*cached{}
+		}
 		return Fn(srvSet, func(i tla.Value) tla.Value {
-			buf, err := mgrs[v][int(i.AsNumber())].MakeLocalShared().GetState()
+			k := int(i.AsNumber())
+			buf, err := mgrs[v][k].MakeLocalShared().GetState()
 			if err != nil {
 				panic(err)
+			}
+			if c := cache[v][k]; c != nil && bytes.Equal(c.raw, buf) {
+				return c.val // unchanged since the last look: skip the decode
 			}
 			var val tla.Value
 			if err := gob.NewDecoder(bytes.NewReader(buf)).Decode(&val); err != nil {
 				panic(err)
 			}
+			cache[v][k] = &cached{raw: buf, val: val}
 			return val
 		})
 	}
